@@ -46,6 +46,7 @@ def main():
 
     known = [k for k in harness.load_known() if k["property"] == prop]
     unknown_n = 0
+    keycount: dict[str, int] = {}
     mine = claim()
     for i, case in enumerate(mod.cases(tier, seed)):
         if i != mine:
@@ -78,9 +79,11 @@ def main():
                 continue
             if not any(fnmatch.fnmatchcase(v["key"], k["key"]) for k in known):
                 unknown_n += 1
-            if sum(1 for x in summary["violations"] if x["key"] == v["key"]) >= 3:
+            keycount[v["key"]] = keycount.get(v["key"], 0) + 1
+            if keycount[v["key"]] > 3:
                 summary["obs"]["violations_suppressed_same_key"] = summary["obs"].get("violations_suppressed_same_key", 0) + 1
-                summary["violations"].append({"prop": v["prop"], "key": v["key"], "msg": v["msg"], "replay": "<same class as above>"})
+                if keycount[v["key"]] <= 200:
+                    summary["violations"].append({"prop": v["prop"], "key": v["key"], "msg": v["msg"], "replay": "<same class as above>"})
                 continue
             v = dict(v)
             v["replay"] = harness.save_replay(prop, v.get("case", case), v, {"trace": v.get("trace")})
